@@ -9,7 +9,7 @@ Rng(s) == {s[j] : j \in DOMAIN s}
 
 \* known-finding shapes of a search event, most specific first
 Shape(CT, ev) ==
-  IF DependentParam(CT, ev.T) THEN "DependentParam"
+  IF DependentParam(CT, ev.T) THEN "DependentParam." \o DepSub(CT, ev.T)
   ELSE IF ParamInBound(CT, ev.T) THEN "ParamInBound"
   ELSE IF InOverProjection(CT, ev.T) THEN "InOverProjection"
   ELSE IF TextualDiffers(CT, ev.T) \/ \E r \in NonSubtypes(CT, ev.T, Rng(ev.res)) : TextualDiffers(CT, r) THEN "TextualSupertypes"
